@@ -122,6 +122,11 @@ func c20Gen(t *rapid.T) (hostile, twin c20Req, desc string, rawValue string) {
 			keys = []string{"date"}
 		}
 		key := rapid.SampledFrom(keys).Draw(t, "key")
+		if rapid.IntRange(0, 7).Draw(t, "foreignKey") == 0 {
+			// a key this listing does not filter on (a column of its table, a key of another listing): refused today;
+			// should it ever be taken, its value is client text like any other
+			key = rapid.SampledFrom([]string{"id", "seq", "ledger", "hash", "type", "postings", "insertion_date", "data", "idempotency_key", "revision", "date", "timestamp", "reference", "address", "balance"}).Draw(t, "foreignKeyName")
+		}
 		op := rapid.SampledFrom([]string{"$match", "$match", "$match", "$lt", "$lte", "$gt", "$gte"}).Draw(t, "op")
 		hk, bk := key, key
 		if strings.Contains(key, "[K]") {
